@@ -28,7 +28,7 @@ ASSUMPTIONS = [
 ]
 TRUSTED = ["CPython asyncio (real, virtual clock)", "pydantic TaskiqResult construction (real)", "vt.sym explorer", "recording stubs"]
 BOUNDS = {"messages": "1 (all configurations); 2 concurrent (2 outcomes quick / all 6 thorough); 3 concurrent (thorough, reduced)", "timer ticks": "<= 6", "timeout label": "5 s"}
-REQUIRED_COVERS = ["return", "raise_exc", "raise_base", "no_result", "cancelled", "timeout", "sync", "async", "backend_failed", "timeout_label_unused"]
+REQUIRED_COVERS = ["raise_system_exit", "return", "raise_exc", "raise_base", "no_result", "cancelled", "timeout", "sync", "async", "backend_failed", "timeout_label_unused"]
 
 
 def cases(tier: str) -> List[Any]:
@@ -48,7 +48,8 @@ def cases(tier: str) -> List[Any]:
     return out
 
 
-EXPECT_ERR = {"raise_exc": ValueError, "raise_base": BaseOnly, "cancelled": asyncio.CancelledError, "timeout": asyncio.TimeoutError}
+EXPECT_ERR = {"raise_exc": ValueError, "raise_base": BaseOnly, "cancelled": asyncio.CancelledError, "timeout": asyncio.TimeoutError,
+              "raise_system_exit": SystemExit}
 
 
 def check_result(c: sym.Ctx, lab: Any, i: int, spec: Dict[str, Any]) -> None:
@@ -88,7 +89,11 @@ def harness(c: sym.Ctx, case: Dict[str, Any]) -> None:
         for k in range(1, n):
             spec[f"outcome{k}"] = c.choose(list(case["pair_outcomes"]), f"outcome{k}")
     spec["mws"] = []
+    if n == 1:
+        base = _cb.OUTCOMES if spec["target"] == "async" else _cb.OUTCOMES[:5]
+        spec["outcome0"] = c.choose(list(base) + list(_cb.EXTRA_OUTCOMES), "outcome0")
     lab = _cb.run(c, spec, n_msgs=n)
+    c.check(lab.count("loop_aborted") == 0, "exception_does_not_escape_into_the_event_loop", aborted=[e for e in lab.ev if e[0] == "loop_aborted"])
     c.cover(spec["target"])
     for i in range(n):
         c.cover(spec[f"outcome{i}"])
